@@ -190,7 +190,8 @@ def ledger_case(acc, rng, variant, tmpdir, case):
         wrong = h.digest()
         m2 = info["signer_msg"].replace(info["keys_hash"], wrong)
         la.resign(doc, info, "signer", m2, rng)
-    file_form = rng.choice(["uncompressed", "compressed"])
+    file_form = rng.choice(["uncompressed", "compressed", "uncompressed", "compressed", "hybrid",
+                            "mixed"])
     pk = la.pubkeys_file(keys, file_form)
     root_hex = g1.pub65(info["root"]).hex()
     expect_ok = True
@@ -460,6 +461,7 @@ def ledger_case(acc, rng, variant, tmpdir, case):
 
 SGX_VARIANTS = ["genuine", "genuine-reordered", "key-replaced", "keys-swapped-paths",
                 "keys-hash-equal-only-in-part", "keys-hash-equal-only-in-part",
+                "keys-hash-of-the-keys-as-spelled-in-the-file",
                 "key-added", "key-removed", "msg-len+1", "msg-len-1", "msg-len+32",
                 "msg-len-32", "header-dot-wildcard", "header-foreign", "header-major6",
                 "missing-quote-target", "wrong-root", "root-not-self-signed", "root-expired",
@@ -478,7 +480,9 @@ def sgx_case(acc, rng, variant, tmpdir, case):
         paths, natural = odd_paths(rng)
         keys = la.operator_keys(rng, paths)
     kh = la.keys_hash({p: g1.pub65(k) for p, k in keys.items()})
-    pk = la.pubkeys_file(keys, rng.choice(["uncompressed", "compressed"]))
+    sgx_file_form = rng.choice(["uncompressed", "compressed", "uncompressed", "compressed",
+                                "hybrid", "mixed"])
+    pk = la.pubkeys_file(keys, sgx_file_form)
     signed_kh = kh
     expect_ok = True
     if variant == "odd-paths-hash-in-numeric-order":
@@ -486,6 +490,16 @@ def sgx_case(acc, rng, variant, tmpdir, case):
         h = _hl.sha256()
         for pth in sorted(keys, key=natural):
             h.update(g1.pub65(keys[pth]))
+        signed_kh = h.digest()
+        expect_ok = False
+    if variant == "keys-hash-of-the-keys-as-spelled-in-the-file":
+        # the attested hash is that of the keys as the operator's file writes them (hybrid
+        # notation) - not of the keys in the notation the device hashes them in
+        import hashlib as _hl
+        pk = la.pubkeys_file(keys, "hybrid")
+        h = _hl.sha256()
+        for pth in sorted(pk):
+            h.update(bytes.fromhex(pk[pth]))
         signed_kh = h.digest()
         expect_ok = False
     if variant == "keys-hash-equal-only-in-part":
